@@ -2,7 +2,7 @@
 """Writes MANIFEST.json from the table below (one place to keep it valid)."""
 import json, subprocess
 
-HOOK_COMMITS = ["f1f1242"]
+HOOK_COMMITS = ["f1f1242", "12326ae"]
 
 CHECKS = {
  "C01": ("5.1", "Generated source models (typed expression grammar) compiled by rooc and judged at exact rational test points: source-feasible iff extendable over the auxiliaries, decided by an exact DFS + bound-propagation + Fourier-Motzkin oracle. Finds defects in rule interplay that hand-written matrices miss; never proves absence.",
